@@ -19,6 +19,7 @@ VARIANTS = {
                  ["--disable-thread-safety"]),
     "tsan": ("gcc", "-O1 -g -fsanitize=thread", []),
     "errlog": ("gcc", "-O1 -g", ["--enable-error-logging"]),
+    "fuzz": ("clang", "-O1 -g -fno-omit-frame-pointer -fsanitize=fuzzer-no-link,address,undefined -fno-sanitize=object-size -fno-sanitize-recover=all", []),
 }
 
 # files that a bootstrapped checkout has although git ignores them
